@@ -384,6 +384,27 @@ Definition tab_results (ckpt : bool) (paused : option Z) (all : list (Z * Z)) : 
   | None => all
   end.
 
+(* the end of _run_job_and_collect_results of the blackbox simulator: "makes sure that time is
+   monotonically increasing, which may not be the case due to numerical errors or due to the use
+   of a surrogate": results[0] = max(results[0], 0.01); results[i] = max(results[i], results[i-1] + 0.01)
+   with the CORRECTED predecessor. The simulator files one event per result at start + elapsed time
+   and pops events by (time, insertion counter): a stable sort by time. *)
+Definition eps_t : Q := 1 # 100.
+Definition Qmaxb (a b : Q) : Q := if Qleb a b then b else a.
+Fixpoint mono_fix_from (prev : Q) (l : list Q) : list Q :=
+  match l with
+  | [] => []
+  | x :: r => let y := Qmaxb x (prev + eps_t) in y :: mono_fix_from y r
+  end.
+Definition mono_fix (l : list Q) : list Q :=
+  match l with
+  | [] => []
+  | x :: r => let y := Qmaxb x eps_t in y :: mono_fix_from y r
+  end.
+(* the result events of a job of trial [i]: (time, payload), in report order *)
+Definition job_events (i : nat) (times : list Q) (vals : list Z) : list (nat * rep) :=
+  map (pair i) (combine (mono_fix times) vals).
+
 (* ---- discipline of the tuning loop, needed by the simulator's fetch logic ----------------- *)
 Fixpoint live_ids (ts : list tr) (i : nat) : list nat :=
   match ts with
